@@ -123,7 +123,7 @@ def _sources(stages, inp):
             ch = inp["assign"][si][i][0]
             if ch == "a":
                 src = "argv-positional" if gen.is_positional(p, inp["as_pos"]) else "argv-option"
-            elif ch == "c":
+            elif ch in "cd":  # first / second config file
                 src = "config"
             elif gen.is_required(p):
                 src = "missing"
@@ -181,13 +181,14 @@ def judge(program, mod, inp, cfg_dir, seen=None):
         seen.add(key)
     global _cfg_serial
     argv, paths = [], []
+    modname = gen.module_name(program)  # class_path values name classes of the generated module
     for content in b["files"]:
         _cfg_serial += 1  # always a new file: truncating an existing one is far more expensive than creating one
         paths.append(os.path.join(cfg_dir, f"cfg{_cfg_serial}.json"))
         with open(paths[-1], "w") as f:
-            json.dump(content, f)
+            f.write(json.dumps(content).replace("@MOD", modname))
     for tok in b["argv"]:
-        argv.append(paths[int(tok[4:])] if tok.startswith("@CFG") else tok)
+        argv.append(paths[int(tok[4:])] if tok.startswith("@CFG") else tok.replace("@MOD", modname))
     mod.CALLS.clear()
     mod.TOKENS.clear()
     comps = gen.components(program, mod)
@@ -212,6 +213,14 @@ def judge(program, mod, inp, cfg_dir, seen=None):
                 "select-by-config:"
                 + ("nested" if len(stages) >= 3 else "first-level")
                 + (":with-sibling-section" if inp.get("sib") is not None else ":alone")
+            )
+        if inp.get("cfg2") is not None:
+            lvl = inp["cfg2"]
+            both = any({"c", "d"} <= {c[0] for c in row} for row in inp["assign"])
+            cover.append(
+                "two-configs:"
+                + ("both-at-the-top-level" if lvl == 0 else "second-at-the-component-level" if lvl == len(stages) - 1 else "second-at-an-intermediate-level")
+                + (":same-component" if both else ":constructor-and-method")
             )
         for st in stages:
             if st.get("mkind"):
@@ -352,17 +361,42 @@ def space(quick):
     """-> list of (block name, program, plan), simplest first."""
     out = []
 
-    def flat(form, n, plan, max_dev=None, tag="", flip=0):
+    def flat(form, n, plan, max_dev=None, tag="", flip=0, mark=None):
         for sig in gen.signatures(n, max_dev):
             prog = {"form": form, "sig": sig}
             if flip:
                 prog["flip"] = 1
+            if mark:  # same program as in another block, run with other inputs: gets its own module
+                prog["block"] = mark
             out.append((f"{form}/{n}{tag}" + ("-flipped" if flip else ""), prog, plan))
 
-    def klass(pairs, plan, namings, nmeths, form="class", max_dev=None, flip=0, nest=0):
+    def xflat(form, n, plan, flip=0):
+        """One parameter of the signature typed from the second alphabet (Optional[generic], Tuple, class types)."""
+        for sig in gen.xsignatures(n):
+            prog = {"form": form, "sig": sig}
+            if flip:
+                prog["flip"] = 1
+            out.append((f"{form}/{n}-second-alphabet" + ("-flipped" if flip else ""), prog, plan))
+
+    def xklass(pairs, plan, form="class", flip=0):
+        for a, b in pairs:
+            for init in gen.xsignatures(a) if a else [[]]:
+                for meth in gen.xsignatures(b) if b else [[]]:
+                    prog = {"form": form, "init": init, "meth": meth}
+                    if form == "class":
+                        prog.update({"naming": "shared", "nmeth": 2})
+                    if flip:
+                        prog["flip"] = 1
+                    out.append((f"{form}/{a}+{b}-second-alphabet" + ("-flipped" if flip else ""), prog, plan))
+
+    def klass(pairs, plan, namings, nmeths, form="class", max_dev=None, flip=0, nest=0, tag2="", mark=None):
         for a, b, init, meth in class_programs(pairs, max_dev):
             if form == "mixed":
                 prog = {"form": "mixed", "init": init, "meth": meth}
+                if mark:
+                    prog["block"] = mark
+                    out.append((f"mixed/{a}+{b}{tag2}", prog, plan))
+                    continue
                 if nmeths:  # the class inside the list / dict has the second method m2 as well
                     prog["nmeth"] = 2
                 if nest:  # {"fa": fa, "grp": {"K": K}} instead of [fa, K]
@@ -374,7 +408,9 @@ def space(quick):
                     prog = {"form": "class", "init": init, "meth": meth, "naming": naming, "nmeth": nmeth}
                     if flip:
                         prog["flip"] = 1
-                    tag = ("-reduced" if max_dev is not None else "") + ("-flipped" if flip else "")
+                    if mark:
+                        prog["block"] = mark
+                    tag = ("-reduced" if max_dev is not None else "") + ("-flipped" if flip else "") + tag2
                     out.append((f"class/{a}+{b}{tag}", prog, plan))
 
     def kinds(pairs, plan, variants, naming="shared"):
@@ -393,6 +429,28 @@ def space(quick):
     mixed_kind_variants = [(k, K3[(i + 1) % 3], inh) for inh in ("", "all") for i, k in enumerate(K3)]
     # for the parameterless method only the constructor side matters: own and inherited constructor x method kind
     init_variants = [(k, k, inh) for inh in ("", "init") for k in K3 if (k, inh) != ("inst", "")] + [("inst", "inst", "all")]
+
+    def second_alphabet_and_two_configs():
+        # second alphabet (Optional[generic] without default -> None, class-typed parameters), every component form
+        xflat("func", 1, "full")
+        xflat("func", 2, "lean")
+        xflat("list", 1, "full")
+        xflat("dict", 1, "lean")
+        xflat("dataclass", 1, "full")
+        xflat("plainclass", 1, "lean")
+        xklass([(0, 1), (1, 0)], "full")
+        xklass([(0, 1), (1, 0)], "lean", form="mixed")
+        for form in ("func", "list"):
+            xflat(form, 1, "lean", flip=1)
+        # settings from two config sources (plan "none" = only the two-config inputs; the other inputs of these
+        # programs are in the blocks above)
+        two = {"mark": "two-configs"}
+        flat("func", 2, "none:two", tag="-two-configs", **two)
+        flat("list", 2, "none:two", max_dev=1, tag="-reduced-two-configs", **two)
+        flat("dict", 2, "none:deep:two", max_dev=1, tag="-reduced-two-configs", **two)
+        klass([(0, 2)], "none:two", ["shared"], (2,), max_dev=1, tag2="-two-configs", **two)
+        klass([(1, 1)], "none:two", ["shared"], (2,), max_dev=0, tag2="-two-configs", **two)
+        klass([(0, 2)], "none:two", None, (2,), form="mixed", max_dev=1, tag2="-reduced-two-configs", **two)
 
     if quick:
         flat("func", 1, "full")
@@ -417,6 +475,7 @@ def space(quick):
         for form in ("func", "list", "dataclass"):
             flat(form, 1, "full", flip=1)
         klass([(0, 1), (1, 0)], "full", ["shared"], (2,), flip=1)
+        second_alphabet_and_two_configs()
     else:
         flat("func", 1, "full")
         flat("func", 2, "full")
